@@ -241,6 +241,128 @@ def feed(ck, sh, mm):
         ck.bounds.setdefault('feed_cases', []).append('%s n=%d pulse=%d (%s)' % (gname, n, k, desc))
 
 
+# ---------------------------------------------------------------------------------
+# C. distributed loads: per half-segment, with the constants of the wire that half belongs to
+# ---------------------------------------------------------------------------------
+
+def distributed(ck, sh, mm):
+    """Skin-effect and insulation loads on a junction of two different wires (different radii, segment
+    lengths, conductivities, coatings): the impedance the load reports for a pulse is the sum over the two
+    half-segments of (half length) x (per-length impedance of the wire THAT half belongs to), with
+        z'_skin = k / (2 pi r sigma) * J0(kr)/J1(kr)   (j beyond |kr| >= 110),  k = sqrt(-j omega mu0 sigma)
+        z'_ins  = j omega mu0 (eps_r - 1)/eps_r * ln(b/a) / (2 pi)
+    for all frequencies, conductivities / resistivities and permittivities (Bessel, log, sqrt, abs as
+    uninterpreted functions); every subset of loaded wires, both evaluation orders of the two loads."""
+    from refmodels import mininec3
+    M = sh.mininec
+    geos = ['G2', 'G4'] if ck.tier == 'quick' else ['G2', 'G3', 'G4', 'G9']
+    for gname in geos:
+        for kind in ('skin-c', 'skin-r', 'ins'):
+            for loaded in ((0, 1), (0,), (1,)):
+                for order in ((0, 1), (1, 0)) if len(loaded) == 2 else ((0,),):
+                    _distributed_case(ck, M, mm, mininec3, gname, kind, loaded, order)
+
+
+def _mk_dist(M, m, kind, loaded, P):
+    lds = {}
+    for i in loaded:
+        w = m.geo[i]
+        if kind == 'skin-c':
+            ld = M.Skin_Effect_Load(w, conductivity=P['sigma'][i], all_wires=False)
+        elif kind == 'skin-r':
+            ld = M.Skin_Effect_Load(w, resistivity=P['rho'][i], all_wires=False)
+        else:
+            ld = M.Insulation_Load(w, P['insr'][i], P['eps'][i], all_wires=False)
+        m.register_load(ld, None, w.tag)
+        lds[i] = ld
+    m.fix_distributed_loads()
+    return lds
+
+
+def _distributed_case(ck, M, mm, mininec3, gname, kind, loaded, order):
+    insr = [0.006, 0.009]
+
+    def fn():
+        f = pos('f', 0.1, 1000)
+        P = dict(sigma=[pos('sigma1', 1e3, 1e9), pos('sigma2', 1e3, 1e9)], rho=[pos('rho1', 1e-9, 1e-3), pos('rho2', 1e-9, 1e-3)],
+                 eps=[pos('eps1', 1.5, 80), pos('eps2', 1.5, 80)], insr=insr)
+        omg = f * TWO_PI_1E6
+        with symx.object_arrays():
+            m = catalogue.build(M, gname, f=f)
+            lds = _mk_dist(M, m, kind, loaded, P)
+            seq = [lds[loaded[k]] for k in order]
+            got = []
+            for ld in seq:
+                for p in ld.pulses:
+                    got.append((ld.geobj.n, p.idx, ld.impedance(f, p)))
+            # reference, from pulse geometry and the constants of the wire of each half
+            ref = []
+            for gi, pidx, z in got:
+                p = m.pulses[pidx]
+                hv = mininec3.halves(p)
+                acc = SC(0.0, 0.0)
+                for h in (0, 1):
+                    w = p.geo[h]
+                    if w.n not in lds:
+                        continue
+                    half = hv[h]['len'] / 2
+                    if kind == 'ins':
+                        eps = P['eps'][w.n]
+                        zp = (MU0 * (eps - 1) / eps * npf.log(insr[w.n] / w.r_orig) / (2 * math.pi)) * omg * SC(0.0, 1.0)      # same association as a double computation
+                    else:
+                        sig = P['sigma'][w.n] if kind == 'skin-c' else 1 / P['rho'][w.n]
+                        k = npf.sqrt(SC(0.0, -1.0) * omg * MU0 * sig)
+                        kr = k * w.r_orig
+                        b = SC(0.0, 1.0)
+                        if abs(kr) < 110.0:
+                            b = npf.jv(0, kr) / npf.jv(1, kr)
+                        zp = k / (2 * math.pi * w.r_orig * sig) * b
+                    acc = acc + zp * half
+                ref.append(acc)
+        inp = dict(f=f, sigma1=P['sigma'][0], sigma2=P['sigma'][1], rho1=P['rho'][0], rho2=P['rho'][1], eps1=P['eps'][0], eps2=P['eps'][1])
+        return dict(inputs=inp, got=got, ref=ref)
+
+    def goals(o):
+        return [('load of object %d on pulse %d = sum over halves of half length x per-length impedance of that half\'s wire' % (gi + 1, pi + 1),
+                 eq_term(z, r)) for (gi, pi, z), r in zip(o['got'], o['ref'])]
+
+    def replay(c, gn, out):
+        import scipy.special as sps
+        P = dict(sigma=[c['sigma1'], c['sigma2']], rho=[c['rho1'], c['rho2']], eps=[c['eps1'], c['eps2']], insr=insr)
+        m = catalogue.build(mm, gname, f=c['f'])
+        lds = _mk_dist(mm, m, kind, loaded, P)
+        omg = 2 * math.pi * c['f'] * 1e6
+        from refmodels import mininec3 as m3
+        for ld in [lds[loaded[k]] for k in order]:
+            for p in ld.pulses:
+                z = ld.impedance(c['f'], p)
+                hv = m3.halves(p)
+                acc = 0j
+                for h in (0, 1):
+                    w = p.geo[h]
+                    if w.n not in lds:
+                        continue
+                    half = hv[h]['len'] / 2
+                    if kind == 'ins':
+                        e = P['eps'][w.n]
+                        zp = 1j * omg * MU0 * (e - 1) / e * math.log(insr[w.n] / w.r_orig) / (2 * math.pi)
+                    else:
+                        sig = P['sigma'][w.n] if kind == 'skin-c' else 1 / P['rho'][w.n]
+                        k = np.sqrt(-1j * omg * MU0 * sig)
+                        kr = k * w.r_orig
+                        b = 1j if abs(kr) >= 110 else sps.jv(0, kr) / sps.jv(1, kr)
+                        zp = k / (2 * math.pi * w.r_orig * sig) * b
+                    acc += zp * half
+                if not close(z, acc, 1e-7, 1e-300):
+                    return ('C08:distributed:%s:%s' % (kind, 'junction' if p.geo[0] is not p.geo[1] else 'interior'),
+                            '%s, %s on object(s) %s: load of object %d on pulse %d is %r, per-half sum gives %r'
+                            % (gname, kind, [i + 1 for i in loaded], ld.geobj.n + 1, p.idx + 1, z, acc), dict(kind='distributed', geometry=gname))
+        return None
+    prove_paths(ck, 'dist-%s-%s-w%s-o%s' % (gname, kind, ''.join(str(i + 1) for i in loaded), ''.join(map(str, order))), fn, goals, replay,
+                max_paths=64, sqrt_mode='uf-free', timeout_ms=5000 if ck.tier == 'quick' else 30000,
+                tol_goals=(lambda o: {g[0]: close_term(z, r, 1e-9) for g, ((gi, pi, z), r) in zip(goals(o), zip(o['got'], o['ref']))}) if kind == 'ins' else None)
+
+
 def main(args):
     ck = Check('C08', args)
     sh = symx.load()
@@ -249,6 +371,7 @@ def main(args):
     with symx.shadow.trace_functions(sh):
         circuits(ck, sh, mm)
         feed(ck, sh, mm)
+        distributed(ck, sh, mm)
     ck.functions = sh.entered
     ck.assumptions += [
         'reals stand in for IEEE doubles (rounding of the load arithmetic and of LAPACK is not modelled)',
